@@ -135,4 +135,33 @@ theorem region_unitNormals (tol : Tol ℝ) (r : Region ℝ) (hp : r.Proved tol) 
     · simp only [Surface.UnitNormal]; num_simp; nlinarith [h2]
   | genprism hz lo hi dg => exact hp.elim
 
+/-- `or_solid` for one segment: membership is that of the centred solid at the point shifted down
+    by dz = (zhi + zlo)/2 — whatever the sign of dz, and also when dz = 0 -/
+theorem polySingle_mem (zlo zhi : ℝ) (mk : ℝ → Region ℝ) (mkInner : Option (ℝ → Region ℝ))
+    (angle : Option (Sense × Region ℝ)) (p : Vec3 ℝ) :
+    (Obj.polySingle zlo zhi mk mkInner angle).mem p
+      = (Obj.solid (mk ((zhi - zlo) / 2)) (mkInner.map fun f => f ((zhi - zlo) / 2)) angle).mem
+          ⟨p.x, p.y, p.z - (zhi + zlo) / 2⟩ := by
+  unfold Obj.polySingle
+  num_simp
+  by_cases h : (zhi + zlo) / 2 = 0
+  · rw [if_neg (by simpa using h)]
+    rw [h]
+    simp only [sub_zero]
+  · rw [if_pos h]
+    simp only [Obj.mem, Xform.down, translateDown, Vec3.sub]
+    num_simp
+    simp only [sub_zero]
+
+/-- a segment of a multi-segment polycone / polyprism occupies z ∈ [zlo, zhi]: its membership is
+    the centred region's at the point shifted down by the segment's mid-height (zlo + zhi)/2 -/
+theorem polySegment_mem (zlo zhi : ℝ) (mk : ℝ → Region ℝ) (p : Vec3 ℝ) :
+    (Obj.polySegment zlo zhi mk none).mem p
+      = (mk ((zhi - zlo) / 2)).mem ⟨p.x, p.y, p.z - (zlo + zhi) / 2⟩ := by
+  unfold Obj.polySegment
+  simp only [Obj.mem, Obj.memAll, Xform.down, translateDown, Vec3.sub, List.append_nil, Bool.and_true]
+  num_simp
+  have : p.z - (zlo + (zhi - zlo) / 2) = p.z - (zlo + zhi) / 2 := by ring
+  simp only [sub_zero, this]
+
 end CelerVerif.Solids
